@@ -182,6 +182,128 @@ def mutate(rng, data):
     return mutate_bytes(rng, data)
 
 
+_DIRECTED = None
+_DIRECTED_FAILS = []
+
+
+def directed_variants():
+    """header-level variants of the seed streams that random mutation practically never reaches: unknown preset
+    indices (frame rate, colour spec, primaries, matrix, transfer function), presets newer than the stream's major
+    version, a transform depth without default quantisation matrix, low-delay slices below one byte, field coding
+    with an odd frame height.  Built by editing the deserialised description and serialising it with the real
+    serialiser (missing dependent fields come from the default-value table); [(name, bytes)]"""
+    global _DIRECTED
+    if _DIRECTED is not None:
+        return _DIRECTED
+    from vc2_conformance.bitstream import BitstreamReader, Deserialiser, parse_stream, autofill_and_serialise_stream
+    from vc2_conformance.pseudocode.state import State
+
+    def edit(data, fn, header_only):
+        r = BitstreamReader(BytesIO(data))
+        with Deserialiser(r) as des:
+            parse_stream(des, State())
+        ctx = des.context
+        for seq in ctx["sequences"]:
+            if header_only:   # the header is validated before anything else is looked at
+                seq["data_units"] = [du for du in seq["data_units"] if "sequence_header" in du][:1] + seq["data_units"][-1:]
+            for du in seq["data_units"]:
+                for k in ("picture_parse", "fragment_parse"):   # slice contents are re-made from the defaults
+                    if k in du:
+                        for node in (du[k].get("wavelet_transform", {}).get("transform_data", {}), du[k].get("fragment_data", {})):
+                            node.pop("hq_slices", None)
+                            node.pop("ld_slices", None)
+            for du in seq["data_units"]:
+                fn(du)
+                # sizes change: let the offsets be recomputed
+                du["parse_info"].pop("next_parse_offset", None)
+                du["parse_info"].pop("previous_parse_offset", None)
+        f = BytesIO()
+        signal.signal(signal.SIGALRM, _alarm)
+        signal.alarm(3)
+        try:
+            autofill_and_serialise_stream(f, ctx)
+        finally:
+            signal.alarm(0)
+        return f.getvalue()
+
+    def hdr(fn):
+        def g(du):
+            if "sequence_header" in du:
+                fn(du["sequence_header"])
+        return g
+
+    def tp(fn):
+        def g(du):
+            for k in ("picture_parse", "fragment_parse"):
+                if k in du:
+                    node = du[k].get("wavelet_transform", du[k])
+                    if "transform_parameters" in node:
+                        fn(node["transform_parameters"])
+        return g
+
+    def setv(path, value):
+        def fn(node):
+            for k in path[:-1]:
+                node = node.setdefault(k, {}) if not isinstance(node.get(k), dict) else node[k]
+            node[path[-1]] = value
+        return fn
+
+    def delv(path):
+        def fn(node):
+            for k in path[:-1]:
+                node = node.get(k, {})
+            node.pop(path[-1], None)
+        return fn
+
+    def many(*fns):
+        def fn(node):
+            for f in fns:
+                f(node)
+        return fn
+
+    vp = ["video_parameters"]
+    recipes = []
+    for idx in (12, 99):
+        recipes.append(("frame-rate-index-%d" % idx, hdr(many(setv(vp + ["frame_rate", "custom_frame_rate_flag"], True), setv(vp + ["frame_rate", "index"], idx),
+                        delv(vp + ["frame_rate", "frame_rate_numer"]), delv(vp + ["frame_rate", "frame_rate_denom"])))))
+    for mv in (1, 2):
+        for idx in (9, 10, 11, 12, 13, 14):
+            recipes.append(("frame-rate-index-%d-v%d" % (idx, mv), hdr(many(setv(["parse_parameters", "major_version"], mv),
+                            setv(vp + ["frame_rate", "custom_frame_rate_flag"], True), setv(vp + ["frame_rate", "index"], idx),
+                            delv(vp + ["frame_rate", "frame_rate_numer"]), delv(vp + ["frame_rate", "frame_rate_denom"])))))
+        for idx in (3, 4, 5, 6, 7, 9):
+            recipes.append(("color-spec-index-%d-v%d" % (idx, mv), hdr(many(setv(["parse_parameters", "major_version"], mv),
+                            setv(vp + ["color_spec", "custom_color_spec_flag"], True), setv(vp + ["color_spec", "index"], idx)))))
+        for part, flag in (("color_primaries", "custom_color_primaries_flag"), ("color_matrix", "custom_color_matrix_flag"),
+                           ("transfer_function", "custom_transfer_function_flag")):
+            for idx in (2, 3, 4, 5, 6, 9, 99):
+                recipes.append(("%s-index-%d-v%d" % (part, idx, mv), hdr(many(
+                    setv(["parse_parameters", "major_version"], mv),
+                    setv(vp + ["color_spec", "custom_color_spec_flag"], True), setv(vp + ["color_spec", "index"], 0),
+                    setv(vp + ["color_spec", part, flag], True), setv(vp + ["color_spec", part, "index"], idx)))))
+    for idx in (5, 9, 99):
+        recipes.append(("signal-range-index-%d" % idx, hdr(many(setv(vp + ["signal_range", "custom_signal_range_flag"], True), setv(vp + ["signal_range", "index"], idx)))))
+    recipes.append(("odd-height-fields", hdr(many(setv(["picture_coding_mode"], 1), setv(vp + ["frame_size", "custom_dimensions_flag"], True),
+                                             setv(vp + ["frame_size", "frame_height"], 5)))))
+    for depth in (5, 6):
+        recipes.append(("depth-%d-no-matrix" % depth, tp(many(setv(["dwt_depth"], depth), setv(["quant_matrix", "custom_quant_matrix"], False)))))
+    for num, den in ((0, 1), (1, 2), (1, 3)):
+        recipes.append(("slice-bytes-%d-%d" % (num, den), tp(many(setv(["slice_parameters", "slice_bytes_numerator"], num), setv(["slice_parameters", "slice_bytes_denominator"], den)))))
+    out = []
+    base = dict(seeds())
+    for name, fn in recipes:
+        for sname in ("hq-minimal", "ld-minimal"):
+            if name.startswith("slice-bytes") and not sname.startswith("ld"):
+                continue
+            try:
+                out.append(("%s@%s" % (name, sname), edit(base[sname], fn, not (name.startswith("depth-") or name.startswith("slice-bytes")))))
+            except (Exception, Timeout) as e:  # noqa  - the edited description does not serialise
+                _DIRECTED_FAILS.append((name, sname, type(e).__name__, str(e)[:100]))
+                continue
+    _DIRECTED = out
+    return out
+
+
 MAX_DIM = 64
 
 
